@@ -57,7 +57,9 @@ def run(ctx):
     q = ctx.tier == "quick"
     d = ctx.spec_copy("subnets")
     ctx.rule = ("G: for every network of both documented lists TLC emits first/last address, neighbours, every "
-                "single-bit flip, two-bit flips near the boundary, zoned and 4in6 forms and the zero Addr with the "
+                "single-bit flip, two-bit flips near the boundary, misplaced images of the prefix bytes (moved by 1..13 "
+                "bytes and/or 4 bits, zero / non-zero fill, zero bytes swapped, moved ::ffff:a.b.c.d images), "
+                "zoned and 4in6 forms and the zero Addr with the "
                 "verdicts of both lists; each is replayed on IsLocallyServed and IsSpecialPurpose. "
                 "T: exhaustive sweeps (thorough: all 2^32 IPv4 addresses) compressed to maximal runs and validated "
                 "by TLC against the lists; random IPv4/IPv6/4in6/zoned addresses judged against the exported list, "
